@@ -14,7 +14,7 @@ import (
 
 func genC10(rt *rapid.T, c *Ctx) KCase {
 	o := spec.Opts{MinProv: 1, MaxProv: 9, MaxInjectors: 4, MaxFiles: 2}
-	o.Allow = spec.AllowAll("variadic")
+	o.Allow = spec.AllowAll()
 	for _, e := range c.KF.Entries {
 		if (e.Property == "C10" || e.Property == "C09") && e.Status == "open" {
 			for _, t := range e.Trigger {
